@@ -310,7 +310,7 @@ func RunProgram(backend sim.Backend, nStores int, batch1 bool, conc1 bool, keys,
 		res.infra = "recovery: " + err.Error()
 		return
 	}
-	res.viol = sim.CheckHistory(w.Recs(), res.truth, keys, rules)
+	res.viol = sim.CheckHistory(w.Recs(), res.truth, keys, rules, cl.Trace.Since(0)...)
 	return
 }
 
@@ -370,11 +370,14 @@ func histories(t *testing.T, backend sim.Backend) {
 		if res.infra != "" {
 			t.Fatalf("VERIF-INFRA: %s | %s", res.infra, prog)
 		}
-		if len(res.viol) > 0 {
-			var vs []string
-			for _, v := range res.viol {
-				vs = append(vs, v.String())
+		var vs []string
+		for _, v := range res.viol {
+			if v.Known != "" && rec.Excluding(v.Known) {
+				continue // a listed known finding: excluded from the search and counted (see TestKnownFindings)
 			}
+			vs = append(vs, v.String())
+		}
+		if len(vs) > 0 {
 			t.Fatalf("history violates snapshot isolation / external consistency:\n  %s\n  config: backend=%v stores=%d batch1=%v conc1=%v splits=%q\n  program: %s\n  log:\n    %s\n  truth: %s",
 				strings.Join(vs, "\n  "), backend, nStores, batch1, conc1, splits, prog, strings.Join(res.w.Log, "\n    "), res.truth.Describe(keys)+"\n  rpc trace:\n    "+strings.ReplaceAll(res.w.Cl.Trace.Describe(), "\n", "\n    "))
 		}
@@ -396,4 +399,37 @@ func histories(t *testing.T, backend sim.Backend) {
 		rec.Case(fmt.Sprintf("%v/%d/%v/%v/%q/%s", backend, nStores, batch1, conc1, splits, prog), nontrivial(recs, res.truth), classes,
 			map[string]any{"backend": backend.String(), "stores": nStores, "batch_size_1": batch1, "splits": splits, "program": prog})
 	})
+}
+
+// TestKnownFindings replays the fixed scenarios of the findings listed in known_findings.json and prints the
+// KNOWN-FINDING line for each one that still manifests; any other violation in these scenarios fails.
+func TestKnownFindings(t *testing.T) {
+	rec := ev.For(t, "C01", "fixed regression scenarios of the listed known findings; each is replayed and must show exactly the listed violation")
+	// C01/insert-delete-check-window: T0 inserts and deletes e (=> non-locking existence check) and writes b; after
+	// T0's prewrite (check included) has succeeded, T1 creates e and commits; T0 then commits with a later commit ts.
+	t1 := []*sim.Step{{Txn: 1, Op: "begin", Client: 1}, {Txn: 1, Op: "set", Keys: []string{"e"}, Val: "other"}, {Txn: 1, Op: "commit"}}
+	steps := []*sim.Step{
+		{Txn: 0, Op: "begin", Client: 0},
+		{Txn: 0, Op: "insert", Keys: []string{"e"}, Val: "mine"},
+		{Txn: 0, Op: "delete", Keys: []string{"e"}},
+		{Txn: 0, Op: "set", Keys: []string{"b"}, Val: "x"},
+		{Txn: 0, Op: "commit", Faults: []sim.FaultSpec{{Type: "Prewrite", Index: 0, Action: "gateAfter", Nested: &sim.Step{Op: "seq", Sub: t1}}}},
+	}
+	for _, backend := range []sim.Backend{sim.Mock, sim.Uni} {
+		res := RunProgram(backend, 1, false, true, []string{"b", "e"}, nil, steps, nil)
+		if res.infra != "" || res.hung != "" {
+			t.Fatalf("VERIF-INFRA: %s %s", res.infra, res.hung)
+		}
+		manifested := false
+		for _, v := range res.viol {
+			if v.Known == sim.KnownInsertDeleteWindow && rec.IsKnown(v.Known) {
+				manifested = true
+				continue
+			}
+			t.Fatalf("unexpected violation in the regression scenario of %s on %v: %s\n  log:\n    %s\n  rpc trace:\n    %s", sim.KnownInsertDeleteWindow, backend, v,
+				strings.Join(res.w.Log, "\n    "), strings.ReplaceAll(res.w.Cl.Trace.Describe(), "\n", "\n    "))
+		}
+		rec.Case(fmt.Sprintf("known/%s/%v", sim.KnownInsertDeleteWindow, backend), manifested, []string{fmt.Sprintf("known-finding-manifested=%v", manifested)},
+			map[string]any{"scenario": progString(steps), "backend": backend.String(), "manifested": manifested})
+	}
 }
